@@ -47,6 +47,9 @@ def vary_rare_parameters(rng, cfg, p=0.15):
     if rng.random() < p and "eps_SY" not in cfg:
         # the curvature threshold of the memory far below machine precision (or zero: any positive curvature is accepted), or large
         cfg["eps_SY"] = float(pick_(rng, [0.0, 1e-300, 1e-30, 1e-3, 0.5]))
+    if rng.random() < 0.08:
+        # an objective that sets NumPy's floating-point error state at its first call and depends on finding it unchanged afterwards
+        cfg["fp_sensitive"] = True
     return cfg
 
 
